@@ -257,12 +257,22 @@ pub struct Monitors {
     // C03
     pub cp_signed: BTreeMap<u64, (u64, u64)>,
     pub cp_revoked: BTreeMap<u64, [u8; 32]>,
+    /// revocations refused while a store write was failing: possibly recorded by the store side that took the write
+    pub cp_revoked_maybe: BTreeSet<u64>,
+    /// sign requests refused while a store write was failing (number → point): possibly recorded as signed
+    pub cp_signed_maybe: BTreeMap<u64, u64>,
     pub violations: Vec<Violation>,
 }
 
+pub type Kvv = KVVPersister<MemoryKVVStore, JsonFormat>;
+
 pub struct World {
     pub persister: Arc<dyn Persist>,
-    /// while set, every store write fails
+    pub store: Arc<Kvv>,
+    pub backup_store: Option<Arc<Kvv>>,
+    /// while set, every write to the backup side fails (composite store only)
+    pub fail_b: Arc<std::sync::atomic::AtomicBool>,
+    /// while set, every store write fails (the main store of a composite)
     pub fail: Arc<std::sync::atomic::AtomicBool>,
     /// the policy tag demoted to a warning in this world
     pub demoted: Option<String>,
@@ -283,6 +293,8 @@ pub struct World {
     pub step: usize,
     /// the implementation panicked (poisoned locks): only `restart` makes sense afterwards
     pub dead: bool,
+    /// a store-write failure is being injected into the running request
+    pub in_fail: bool,
 }
 
 fn config() -> NodeConfig {
@@ -382,10 +394,26 @@ impl World {
 
     /// `demoted`: one policy tag that the deployment's filter turns into a warning (None = default filter)
     pub fn new_cfg(demoted: Option<String>) -> World {
+        World::new_cfg2(demoted, false)
+    }
+
+    fn make_persister(store: &Arc<Kvv>, backup: &Option<Arc<Kvv>>, fail: &Arc<std::sync::atomic::AtomicBool>, fail_b: &Arc<std::sync::atomic::AtomicBool>) -> Arc<dyn Persist> {
+        use crate::props::tap::Tap;
+        match backup {
+            // composite: writes go to the main store first, then to the backup; reads come from the main store
+            Some(b) => Arc::new(vls_persist::backup_persister::BackupPersister::new(Tap::with_fail(store.clone(), fail.clone()), Tap::with_fail(b.clone(), fail_b.clone()))),
+            None => Arc::new(Tap::with_fail(store.clone(), fail.clone())),
+        }
+    }
+
+    /// `backup`: persist through `BackupPersister<main, backup>` instead of a single store
+    pub fn new_cfg2(demoted: Option<String>, backup: bool) -> World {
         let fail = Arc::new(std::sync::atomic::AtomicBool::new(false));
-        let store = Arc::new(KVVPersister(MemoryKVVStore::new([3u8; 16]), JsonFormat));
+        let fail_b = Arc::new(std::sync::atomic::AtomicBool::new(false));
+        let store: Arc<Kvv> = Arc::new(KVVPersister(MemoryKVVStore::new([3u8; 16]), JsonFormat));
+        let backup_store: Option<Arc<Kvv>> = if backup { Some(Arc::new(KVVPersister(MemoryKVVStore::new([4u8; 16]), JsonFormat))) } else { None };
         // every write goes through a tap that can be told to fail (injected store failure)
-        let persister: Arc<dyn Persist> = Arc::new(crate::props::tap::Tap::with_fail(store, fail.clone()));
+        let persister = World::make_persister(&store, &backup_store, &fail, &fail_b);
         let seed = [7u8; 32];
         let cfg = config();
         let clock = Arc::new(ManualClock::new(std::time::Duration::from_secs(1_700_000_000)));
@@ -398,6 +426,9 @@ impl World {
         let setup = make_test_channel_setup();
         let mut w = World {
             persister,
+            store,
+            backup_store,
+            fail_b,
             fail,
             demoted,
             clock,
@@ -413,6 +444,7 @@ impl World {
             tags: BTreeSet::new(),
             step: 0,
             dead: false,
+            in_fail: false,
         };
         // the holder's own secrets, by value, straight from the channel keys (not through the
         // guarded accessors): commitment numbers 0..64 and the numbers the u64 edge requests alias to
@@ -641,12 +673,12 @@ impl World {
             self.mon.cp_signed.insert(n, (pt, c));
         }
         for j in 0..n.saturating_sub(1) {
-            if !self.mon.cp_revoked.contains_key(&j) {
+            if !self.mon.cp_revoked.contains_key(&j) && !self.mon.cp_revoked_maybe.contains(&j) {
                 self.violation("c03-sign-over-unrevoked", format!("signed counterparty commitment {} although {} was never revoked by a verified secret", n, j));
                 break;
             }
         }
-        let unrevoked = self.mon.cp_signed.keys().filter(|k| !self.mon.cp_revoked.contains_key(k)).count();
+        let unrevoked = self.mon.cp_signed.keys().filter(|k| !self.mon.cp_revoked.contains_key(k) && !self.mon.cp_revoked_maybe.contains(k)).count();
         if unrevoked > 2 {
             self.violation("c03-three-unrevoked", format!("{} signed counterparty commitments are unrevoked", unrevoked));
         }
@@ -709,6 +741,9 @@ impl World {
 
     fn on_cp_revoked(&mut self, n: u64, secret: [u8; 32], pt_of_secret: u64) {
         match self.mon.cp_signed.get(&n).copied() {
+            None if self.mon.cp_signed_maybe.get(&n) == Some(&pt_of_secret) => {
+                self.tags.insert("revocation-of-unacknowledged-signature".into());
+            }
             None => self.violation("c03-revocation-unsigned", format!("accepted a revocation of counterparty commitment {} that was never signed", n)),
             Some((p0, _)) =>
                 if p0 != pt_of_secret {
@@ -980,12 +1015,19 @@ impl World {
             self.step += 1;
             return "ok".into();
         }
-        if kind == "failw" {
-            // the store refuses every write during this one request
+        if kind == "store" {
+            self.step += 1;
+            return "ok".into();
+        }
+        if kind == "failw" || kind == "failb" {
+            // the store (failb: the backup side of the composite) refuses every write during this one request
             let inner = t[1..].join(" ");
-            self.fail.store(true, std::sync::atomic::Ordering::Relaxed);
+            let flag = if kind == "failb" { self.fail_b.clone() } else { self.fail.clone() };
+            flag.store(true, std::sync::atomic::Ordering::Relaxed);
+            self.in_fail = true;
             let line = self.apply(&inner);
-            self.fail.store(false, std::sync::atomic::Ordering::Relaxed);
+            self.in_fail = false;
+            flag.store(false, std::sync::atomic::Ordering::Relaxed);
             if line.starts_with("ok") {
                 // acknowledged although nothing could be written: the reply counts, the run goes on
                 self.tags.insert("failw:acknowledged".into());
@@ -994,7 +1036,7 @@ impl World {
                 self.tags.insert("failw:refused".into());
                 self.dead = true;
             }
-            return format!("failw {}", line);
+            return format!("{} {}", kind, line);
         }
         let ready = self.is_ready();
         let res: Result<String, String> = match catch_unwind(AssertUnwindSafe(|| -> Result<String, String> {
@@ -1034,6 +1076,8 @@ impl World {
                     Ok("ok".into())
                 }
                 "restart" => {
+                    // a process start builds a new persister object over the same stores
+                    self.persister = World::make_persister(&self.store, &self.backup_store, &self.fail, &self.fail_b);
                     let (node_id, entry) = self.persister.get_nodes().unwrap().into_iter().next().unwrap();
                     let n = Node::restore_node(&node_id, entry, &self.seed, services(self.persister.clone(), self.clock.clone(), &self.demoted)).map_err(|e| class_of(&e))?;
                     self.node = n;
@@ -1075,7 +1119,14 @@ impl World {
                             }
                             Ok("ok".into())
                         }
-                        Err(e) => Err(class_of(&e)),
+                        Err(e) => {
+                            // refused while a store write was failing: the signer may already have recorded the
+                            // (fully verified) commitment in the store side that did accept the write
+                            if self.in_fail && full {
+                                self.mon.accepted_valid.insert(n);
+                            }
+                            Err(class_of(&e))
+                        }
                     }
                 }
                 "revoke" => {
@@ -1216,7 +1267,12 @@ impl World {
                             }
                             Ok("ok".into())
                         }
-                        Err(e) => Err(class_of(&e)),
+                        Err(e) => {
+                            if self.in_fail {
+                                self.mon.cp_signed_maybe.insert(n, ptid);
+                            }
+                            Err(class_of(&e))
+                        }
                     }
                 }
                 "revokecp" => {
@@ -1231,6 +1287,9 @@ impl World {
                         }
                         Err(e) => {
                             self.check_store_present("a refused revocation");
+                            if self.in_fail {
+                                self.mon.cp_revoked_maybe.insert(n);
+                            }
                             Err(class_of(&e))
                         }
                     }
@@ -1277,7 +1336,7 @@ impl World {
                                 || (a.next_holder_commit_info.is_some() && b.next_holder_commit_info.is_none()),
                         _ => false,
                     };
-                    if validated && s {
+                    if (validated || self.in_fail) && s {
                         self.mon.accepted_valid.insert(n);
                     } else if validated {
                         self.tags.insert("validate:accepted-not-fully-signed".into());
@@ -1395,6 +1454,9 @@ impl World {
                         }
                         Err(e) => {
                             self.check_store_present("a refused revocation");
+                            if self.in_fail {
+                                self.mon.cp_revoked_maybe.insert(n);
+                            }
                             Err(herr_class(&e))
                         }
                     }
@@ -1434,7 +1496,12 @@ impl World {
                             }
                             Ok("ok".into())
                         }
-                        Err(e) => Err(herr_class(&e)),
+                        Err(e) => {
+                            if self.in_fail {
+                                self.mon.cp_signed_maybe.insert(n, ptid);
+                            }
+                            Err(herr_class(&e))
+                        }
                     }
                 }
                 "hmutualclose" => {
@@ -1535,7 +1602,7 @@ impl World {
                                 || (a.next_holder_commit_info.is_some() && b.next_holder_commit_info.is_none()),
                         _ => false,
                     };
-                    if validated && full {
+                    if (validated || self.in_fail) && full {
                         self.mon.accepted_valid.insert(n);
                     } else if validated {
                         self.tags.insert("validate:accepted-not-fully-signed".into());
